@@ -252,6 +252,16 @@ fn run(case: &str) -> String {
         bytes.extend_from_slice(&msg_bytes(m));
     }
     std::fs::File::create(&path).unwrap().write_all(&bytes).unwrap();
+    // for the `fs` commands: something that is not an archive under an archive name, and a real archive
+    let _ = std::fs::write(dir.path().join("bad.zip"), b"this is not a zip archive at all");
+    {
+        let mut w = zip::ZipWriter::new(std::fs::File::create(dir.path().join("good.zip")).unwrap());
+        let o = zip::write::SimpleFileOptions::default().compression_method(zip::CompressionMethod::Stored);
+        let _ = w.start_file("a.dlt", o);
+        let _ = w.write_all(b"abc");
+        let _ = w.finish();
+    }
+    let d = dir.path().to_str().unwrap().to_string();
     // what the library itself reads from that file
     let expect: Vec<DltMessage> = adlt::utils::DltMessageIterator::new(0, std::io::Cursor::new(bytes)).collect();
 
@@ -262,7 +272,7 @@ fn run(case: &str) -> String {
     let child = std::process::Command::new(adlt_bin())
         .args(["remote", "-p", &port.to_string()])
         .stdout(std::process::Stdio::null())
-        .stderr(std::process::Stdio::null())
+        .stderr(if std::env::var("VERIF_REM_STDERR").is_ok() { std::process::Stdio::inherit() } else { std::process::Stdio::null() })
         .spawn()
         .expect("adlt binary");
     let start = Instant::now();
@@ -289,6 +299,8 @@ fn run(case: &str) -> String {
     let mut dead = false;
     let mut file_open = false;
     let big = ms.contains('*');
+    // sessions that use the other collect modes (one-pass streams, no collection): only "one reply each, server alive" is specified
+    let wild = script.contains("open1p") || script.contains("opennc") || script.contains("openxc") || script.contains("stream1p");
     let long = if big { Duration::from_secs(40) } else { Duration::from_secs(4) };
     for cmd in script.split(" ;; ").filter(|x| !x.trim().is_empty()) {
         // `!cmd`: sent at once, whatever the parsing progress is
@@ -298,13 +310,19 @@ fn run(case: &str) -> String {
         };
         let f: Vec<&str> = cmd.split_whitespace().collect();
         // searches and lookups are specified on the fully processed stream: let the server catch up first
-        if !racing && file_open && matches!(f[0], "search" | "bsi" | "bst" | "cw" | "stop" | "close") {
+        if wild {
+            s.drain(Duration::from_millis(40), Duration::from_millis(250));
+        } else if !racing && file_open && matches!(f[0], "search" | "bsi" | "bst" | "cw" | "stop" | "close") {
             s.wait_settled(total, long);
         }
         let text = match f[0] {
             "open" => format!(r#"open {{"files":[{}]}}"#, serde_json::json!(path.to_str().unwrap())),
             "opensort" => format!(r#"open {{"files":[{}],"sort":true}}"#, serde_json::json!(path.to_str().unwrap())),
             "openbad" => r#"open {"files":["/nonexistent/dir/x.dlt"#.to_string(),
+            "open1p" => format!(r#"open {{"files":[{}],"collect":"one_pass_streams"}}"#, serde_json::json!(path.to_str().unwrap())),
+            "opennc" => format!(r#"open {{"files":[{}],"collect":false}}"#, serde_json::json!(path.to_str().unwrap())),
+            "openxc" => format!(r#"open {{"files":[{}],"collect":"bogus"}}"#, serde_json::json!(path.to_str().unwrap())),
+            "stream1p" => format!(r#"stream {{"one_pass":true,"window":[{},{}],"binary":true,"filters":{}}}"#, f[2], f[3], filters_json(f[1])),
             "close" => "close".to_string(),
             "pause" => "pause".to_string(),
             "resume" => "resume".to_string(),
@@ -319,6 +337,26 @@ fn run(case: &str) -> String {
             "bsi" => format!("stream_binary_search {} index={}", real_id(&s, f[1]), f[2]),
             "bst" => format!("stream_binary_search {} time_ms={}", real_id(&s, f[1]), f[2]),
             "bsbad" => format!("stream_binary_search {}", real_id(&s, f[1])),
+            "fs" => match f.get(1).and_then(|x| x.parse::<u32>().ok()).unwrap_or(0) {
+                0 => "fs notjson".to_string(),
+                1 => "fs [1,2]".to_string(),
+                2 => r#"fs {"cmd":"stat"}"#.to_string(),
+                3 => format!(r#"fs {{"cmd":"frob","path":{}}}"#, serde_json::json!(d)),
+                4 => format!(r#"fs {{"cmd":"stat","path":{}}}"#, serde_json::json!(d)),
+                5 => format!(r#"fs {{"cmd":"readDirectory","path":{}}}"#, serde_json::json!(d)),
+                6 => format!(r#"fs {{"cmd":"readDirectory","path":{}}}"#, serde_json::json!(format!("{}/t.dlt", d))),
+                7 => format!(r#"fs {{"cmd":"stat","path":{}}}"#, serde_json::json!(format!("{}/nonexistent", d))),
+                8 => format!(r#"fs {{"cmd":"readDirectory","path":{}}}"#, serde_json::json!(format!("{}/bad.zip!/x", d))),
+                9 => format!(r#"fs {{"cmd":"readDirectory","path":{}}}"#, serde_json::json!(format!("{}/good.zip!/", d))),
+                10 => format!(r#"fs {{"cmd":"stat","path":{}}}"#, serde_json::json!(format!("{}/nothere.zip!/a", d))),
+                _ => "fs".to_string(),
+            },
+            "pcmd" => match f.get(1).and_then(|x| x.parse::<u32>().ok()).unwrap_or(0) {
+                0 => "plugin_cmd notjson".to_string(),
+                1 => "plugin_cmd [1]".to_string(),
+                2 => r#"plugin_cmd {"cmd":"x"}"#.to_string(),
+                _ => r#"plugin_cmd {"cmd":"x","name":"nope"}"#.to_string(),
+            },
             "noid" => format!("{} notanumber", ["stop", "stream_search", "stream_change_window", "stream_binary_search"][f[1].parse::<usize>().unwrap_or(0) % 4]),
             _ => cmd.to_string(),
         };
@@ -342,7 +380,7 @@ fn run(case: &str) -> String {
             Some(t) => {
                 let r = if t.starts_with("ok:") {
                     match f[0] {
-                        "open" | "opensort" => {
+                        "open" | "opensort" | "open1p" | "opennc" | "openxc" => {
                             file_open = true;
                             "ok:open".to_string()
                         }
@@ -351,6 +389,7 @@ fn run(case: &str) -> String {
                             s.ended.iter_mut().for_each(|e| *e = true);
                             "ok:close".to_string()
                         }
+                        "fs" => "ok:fs".to_string(),
                         "pause" => "ok:pause".to_string(),
                         "resume" => "ok:resume".to_string(),
                         "stop" => {
@@ -359,7 +398,7 @@ fn run(case: &str) -> String {
                             }
                             "ok:stop".to_string()
                         }
-                        "stream" | "query" => {
+                        "stream" | "query" | "stream1p" => {
                             let id = t.split("\"id\":").nth(1).and_then(|x| x.split(|c: char| !c.is_ascii_digit()).next()).and_then(|x| x.parse::<u32>().ok()).unwrap_or(0);
                             format!("ok:id{}", s.announce(id, f[0] == "query"))
                         }
@@ -398,12 +437,12 @@ fn run(case: &str) -> String {
                 replies.push(r);
             }
         }
-        if !racing && file_open && matches!(f[0], "stream" | "query" | "cw") {
+        if !wild && !racing && file_open && matches!(f[0], "stream" | "query" | "cw") {
             // give the stream the time to deliver its window
             s.wait_settled(total, long);
         }
     }
-    if file_open && !dead {
+    if file_open && !dead && !wild {
         s.wait_settled(total, long);
     }
     // a little time for late frames
@@ -586,7 +625,14 @@ fn gen(rng: &mut Rng, tier: u32) -> String {
     let monotone = msgs.iter().zip(starts.iter()).map(|(m, s)| s + m.ts as u64 * 100).collect::<Vec<_>>().windows(2).all(|w| w[0] <= w[1]);
     let times: Vec<u64> = msgs.iter().zip(starts.iter()).map(|(m, s)| s + m.ts as u64 * 100).collect();
     let strict = times.windows(2).all(|w| w[0] < w[1]);
-    let open_cmd = if strict && rng.chance(2) { "opensort" } else { "open" };
+    let wild = rng.chance(6);
+    let open_cmd = if wild {
+        *rng.pick(&["open1p", "open1p", "open1p", "opennc", "openxc"])
+    } else if strict && rng.chance(2) {
+        "opensort"
+    } else {
+        "open"
+    };
     let ms: Vec<String> = msgs.iter().zip(starts.iter()).map(|(m, s)| format!("{},{},{},{},{},{},{}", m.ecu, m.recv, m.ts, m.apid, m.ctid, hex(m.text.as_bytes()), s)).collect();
     // command history
     let mut cmds: Vec<String> = vec![];
@@ -621,7 +667,13 @@ fn gen(rng: &mut Rng, tier: u32) -> String {
                 if open {
                     announced += 1;
                 }
-                format!("{} {} {} {}", if rng.chance(3) { "query" } else { "stream" }, gen_fs(rng), start, stop)
+                let verb = if wild && !rng.chance(4) { "stream1p" } else if rng.chance(3) { "query" } else { "stream" };
+                if wild {
+                    // one-pass streams deliver only after `resume`
+                    format!("{} {} {} {} ;; resume", verb, if rng.chance(2) { "-".to_string() } else { gen_fs(rng) }, start, stop)
+                } else {
+                    format!("{} {} {} {}", verb, gen_fs(rng), start, stop)
+                }
             }
             41..=50 => {
                 let start = rng.below(6);
@@ -648,7 +700,9 @@ fn gen(rng: &mut Rng, tier: u32) -> String {
             87..=89 => format!("searchnobody {}", k),
             90..=91 => format!("bsbad {}", k),
             92..=94 => format!("noid {}", rng.below(4)),
-            95..=96 => "openbad".to_string(),
+            95 => "openbad".to_string(),
+            96..=97 => format!("fs {}", rng.below(12)),
+            98 => format!("pcmd {}", rng.below(4)),
             _ => "junk".to_string(),
         };
         // a stop makes the id unusable; keep the generator simple: ids stay in the pool (later use must be answered with err)
